@@ -117,14 +117,16 @@ def run_scenario(shape, edits, vals, expect_exception=None):
     return info, problems
 
 
-def scenario_space(tier, seed, kinds=None, funcs=(False, True), cfis=("none",), anns=("none",), patches=None, doubles=True, data_follows=(False,), multi=True, callee2=(False,), bare=(False,), gaps=(False,), pes=(False, True)):
+def scenario_space(tier, seed, kinds=None, funcs=(False, True), cfis=("none",), anns=("none",), patches=None, doubles=True, data_follows=(False,), multi=True, callee2=(False,), bare=(False,), gaps=(False,), pes=(False, True), ftflags=(False,)):
     kinds = kinds or list(scen.KINDS)
     patches = patches or ["plain", "jmpL2", "ret", "callg", "jcc", "lab", "lab0", "jmplab", "samehead", "samehead2", "selfloop", "twocalls", "callfret"]
     rnd = random.Random(seed)
-    for kind, fn, cfi, ann, df, c2, br1, gp, pe in itertools.product(kinds, funcs, cfis, anns, data_follows, callee2, bare, gaps, pes):
+    for kind, fn, cfi, ann, df, c2, br1, gp, pe, ff in itertools.product(kinds, funcs, cfis, anns, data_follows, callee2, bare, gaps, pes, ftflags):
+        if ff and (pe or gp or c2 or br1):
+            continue                        # flagged fallthrough edges are crossed with the main dimensions only
         if pe and (gp or br1 or (tier == "quick" and (ann not in ("none", "block") or cfi not in ("none", "whole")))):
             continue                        # the file format is crossed with the main dimensions only (all of them in the thorough tier)
-        shape = scen.Shape(kind, fn, cfi, ann, df, c2, br1, gp, pe)
+        shape = scen.Shape(kind, fn, cfi, ann, df, c2, br1, gp, pe, ff)
         singles = scen.single_edits(kind, [p_ for p_ in patches if p_ != "othersec" or df])
         for e in singles:
             yield shape, [e]
